@@ -264,6 +264,17 @@ int main(int argc, char** argv) {
       del_raw(tmp);
       n_init = (size_t)nv;
       emit(objs, "concatv", o, 0, 0, 0, 0, "", hc_exc, 0);
+    } else if (hc_is(0, "concatown")) {
+      /* concatown <o> : concat with a (stack) Tuple of the sequence's OWN first and last elements; growing the storage must not
+         pull them away under the call */
+      hc_exc = "";
+      if (!isT && (long long)len(c) > 0) {
+        var first = get(c, $I(0)), last = get(c, $I(-1));
+        init_vals[0] = vt_token(vt_k, vt_nk, first); init_vals[1] = vt_token(vt_k, vt_nk, last);
+        if (first == last) { HC_TRY(concat(c, tuple(first))); n_init = 1; }      /* (one object twice in a Tuple: open finding F-C04-tuple-dup) */
+        else { HC_TRY(concat(c, tuple(first, last))); n_init = 2; }
+        emit(objs, "concatv", o, 0, 0, 0, 0, "", hc_exc, 0);
+      }
     } else if (hc_is(0, "pushself")) {
       /* pushself <o> <i> [<at>] : the new element is one of the sequence's own (get(c, i)); growing or shifting the storage
          must not pull it away under the call */
